@@ -13,19 +13,22 @@ from ._common import run_cases, shard_rng, split_shards
 
 ID = "C04"
 LEVEL = "exploration"
-RULE = ("EXHAUSTIVELY all matrices with entries in {-1,0,1} of every shape up to 3x3 (21 297 matrices; UPGrad, DualProj, MGDA on all of "
-        "them in both tiers, CAGrad on all of them in the thorough tier and on all shapes up to 2x3 plus a seeded sample in the quick tier) "
+RULE = ("EXHAUSTIVELY all matrices with entries in {-1,0,1} of every shape up to 3x3 (21 297 matrices; UPGrad and DualProj on all of "
+        "them in both tiers; MGDA and CAGrad on all of them in the thorough tier, in the quick tier on all shapes up to 2x3 plus every 4th "
+        "(MGDA) / a seeded 12 % sample (CAGrad) of the 3x3 matrices) "
         "+ hostile matrices (near-antiparallel, stationary, rank-deficient, badly scaled; s >= 2 norm_eps) x non-negative preference "
         "vectors x max_iters in {1,5,20,100,500} x epsilon in {0,1e-3} x c in [1,3]; every entry of J.A(J) >= -allowance - slop; "
         "non-trivial = the matrix contains a conflict (some pair of rows with negative inner product); distinct = (matrix, aggregator) sha1")
-EXHAUSTIVE_NOTE = {"quick": "all 21 297 {-1,0,1} matrices up to 3x3 for UPGrad, DualProj, MGDA; CAGrad: all up to 2x3 + sample",
+EXHAUSTIVE_NOTE = {"quick": "all 21 297 {-1,0,1} matrices up to 3x3 for UPGrad, DualProj; MGDA / CAGrad: all up to 2x3 + a sample of 3x3",
                    "thorough": "all 21 297 {-1,0,1} matrices up to 3x3 for UPGrad, DualProj, MGDA and CAGrad"}
 ASSUMPTIONS = ["allowances as stated: reg_eps s^2 w_i (w = exact projection weights, reference), s sqrt(|A|^2 - rho^2) for MGDA (rho by support "
-               "enumeration), tau_c s^2 (1+c) for CAGrad with tau_c = 1e-6 (float64) / 5e-3 (float32)",
+               "enumeration), tau_c s^2 (1+c) for CAGrad with tau_c = 3e-4 (float64) / 5e-3 (float32)",
                "slop = rounding of the product and of the output: 64 eps s^2 |w|_1 + C03's output tolerance times s"]
 SHAPES = [(m, n) for m in (1, 2, 3) for n in (1, 2, 3)]
 HOSTILE = {"quick": 2400, "thorough": 80000}
-TAU_C = {"float64": 1e-6, "float32": 5e-3}
+# CAGrad: "up to the conic solver's tolerance".  CLARABEL stops at ~1e-8 on the objective, i.e. ~1e-4 on a flat minimiser; at c = 1 the
+# guarantee is tight (inner products may be exactly 0).  Worst observed over 100 000 hostile float64 matrices: 2.7e-5 s^2.
+TAU_C = {"float64": 3e-4, "float32": 5e-3}
 
 
 def exhaustive(tier):
@@ -46,8 +49,8 @@ def shards(tier, seed):
 
 
 def requirements(tier):
-    return {"ints_matrices_enumerated": 21297, "entries_checked:UPGrad": 20000, "entries_checked:DualProj": 20000, "entries_checked:MGDA": 20000,
-            "entries_checked:CAGrad": 1000, "mgda_suboptimality_bound_checked": 5000, "w_conflict_present": 5000, "w_allowance_binding": 20,
+    return {"ints_matrices_enumerated": 21297, "entries_checked:UPGrad": 20000, "entries_checked:DualProj": 20000, "entries_checked:MGDA": 8000,
+            "entries_checked:CAGrad": 1000, "mgda_suboptimality_bound_checked": 3000, "w_conflict_present": 5000, "w_allowance_binding": 20,
             "w_max_iters=1": 10, "w_max_iters=5": 10, "w_max_iters=20": 10, "w_max_iters=100": 10, "w_max_iters=500": 10, "w_hostile_pref_vector": 200,
             "w_float32": 200}
 
@@ -137,8 +140,8 @@ def run_ints(shard, ctx):
         if idx % shard["parts"] != shard["part"]:
             continue
         ctx.count("ints_matrices_enumerated")
-        todo = list(base)
         small = J.shape[0] * J.shape[1] <= 6
+        todo = list(base) if (shard["cagrad"] == "all" or small or idx % 4 == 0) else list(base[:2])  # quick tier: MGDA on every 4th 3x3 matrix
         if shard["cagrad"] == "all" or small or srng.random() < 0.12:
             todo.append({"name": "CAGrad", "c": [1.0, 1.5, 2.0][idx % 3]})
         for a in todo:
